@@ -5,6 +5,8 @@ package gosym
 
 import (
 	"bytes"
+	"crypto/sha256"
+	"encoding/hex"
 	"fmt"
 	"go/types"
 	"strconv"
@@ -306,5 +308,28 @@ func init() {
 		},
 		"(*internal/godebug.Setting).Value":         func(fr *frame, a []value) value { return "" },
 		"(*internal/godebug.Setting).IncNonDefault": func(fr *frame, a []value) value { return nil },
+	})
+}
+
+func init() {
+	register(map[string]externalFn{
+		"crypto/sha256.Sum256": func(fr *frame, a []value) value {
+			sum := sha256.Sum256(bytesOf(fr.i, a[0]))
+			out := make(array, 32)
+			for k, b := range sum {
+				out[k] = b
+			}
+			return out
+		},
+		"encoding/hex.EncodeToString": func(fr *frame, a []value) value {
+			return hex.EncodeToString(bytesOf(fr.i, a[0]))
+		},
+		"encoding/hex.DecodeString": func(fr *frame, a []value) value {
+			b, err := hex.DecodeString(a[0].(string))
+			if err != nil {
+				return tuple{fromBytes(b), fr.i.newError(err.Error())}
+			}
+			return tuple{fromBytes(b), iface{}}
+		},
 	})
 }
